@@ -14,7 +14,8 @@ from . import common
 ID = "C15"
 RULE = ("Stateful generation (Hypothesis RuleBasedStateMachine): a NetSpec rich in stateful parts (Sequential distributions for arrival / "
         "service / batch / reneging / class-change times, Cycle routers, schedules, slotted, trackers) plus a generated history of "
-        "operations: run_fresh(seed, T) builds a new network from the spec; run_reused(seed, T) starts a new Simulation on one shared "
+        "operations (the spec may be in exact mode and may contain 16-17 digit constants): run_fresh(seed, T) builds a new network from the spec; "
+        "run_at_other_precision(seed, T, k) runs the same model with exact=k in between (compared only with its own repeats); run_reused(seed, T) starts a new Simulation on one shared "
         "Network object; run_noise(seed) runs an unrelated simulation in between; interleave(seed, T) steps two simulations alternately, "
         "once on two separate networks and once on the shared one.  Oracle: every run with the same (seed, T) has the same digest "
         "(records with NaN normalised, final clock, tracker history, exit order) whether fresh or reused and whatever ran before; the "
@@ -25,7 +26,7 @@ TECHNIQUE = 'stateful property-based testing: Hypothesis rule-based machine gene
 WALL = {"quick": 150, "thorough": 540}
 
 ALLOWED = ["schedule", "sched_preempt", "slotted", "capacity", "priorities", "reneging", "batching", "cc_after", "cc_waiting", "discipline",
-           "routing_objects", "process_routing", "self_loops", "tracker", "inf", "baulking", "system_capacity", "prio_preempt"]
+           "routing_objects", "process_routing", "self_loops", "tracker", "inf", "baulking", "system_capacity", "prio_preempt", "exact"]
 NOISE = {"classes": [{"arrival": [["exp", 2.0]], "name": "C0", "priority": 0, "routing": {"kind": "matrix", "rows": [[0.25]]}, "service": [["exp", 3.0]]}],
          "nodes": [{"cap": "inf", "servers": {"kind": "int", "c": 1}, "discipline": "SIRO"}], "plan": {"kind": "max_time", "T": [6.0]}, "event_budget": 400}
 SEEDS = [1, 2, 3]
@@ -52,6 +53,8 @@ def _sim(built, spec, budget=1500):
     skw = {}
     if spec.get("tracker"):
         skw["tracker"] = B.make_tracker(spec["tracker"])
+    if spec.get("exact"):
+        skw["exact"] = spec["exact"]
     return O.MonSimulation(built.network, monitors=(), budget=budget, obs=False, ps_nodes=built.ps_nodes, **skw)
 
 
@@ -69,7 +72,7 @@ def execute(case):
     shared = None
     seen = {}           # (seed, T) -> list of (how, digest, position)
     viol = []
-    stats = {"fresh": 0, "reused": 0, "noise": 0, "interleave": 0, "bystander": 0, "records": 0}
+    stats = {"fresh": 0, "reused": 0, "noise": 0, "interleave": 0, "bystander": 0, "precision": 0, "records": 0}
 
     def get_shared():
         nonlocal shared
@@ -90,6 +93,14 @@ def execute(case):
                 b = B.build(spec)
                 d = _run(_sim(b, spec), op[2])
                 seen.setdefault((op[1], op[2]), []).append(("fresh", d, pos))
+            elif kind == "precision":
+                # the same model in exact mode at another precision: its own results are compared among themselves only, but it runs
+                # in the same process in between the others (the decimal context and anything cached per value are process-wide)
+                other = dict(spec, exact=op[3])
+                ciw.seed(op[1])
+                b = B.build(other)
+                d = _run(_sim(b, other), op[2])
+                seen.setdefault((op[1], op[2], op[3]), []).append(("fresh", d, pos))
             elif kind == "bystander":
                 # build and construct, then construct (never run) an unrelated default-routed simulation, then run: no shared state
                 ciw.seed(op[1])
@@ -177,6 +188,11 @@ def make_machine(body):
         def run_with_bystander(self, seed, T):
             self.case["ops"].append(["bystander", seed, T])
 
+        @rule(seed=st.sampled_from(SEEDS), T=st.sampled_from(HORIZONS), k=st.sampled_from([10, 12, 30]))
+        def run_at_other_precision(self, seed, T, k):
+            if not any(nd.get("ps") for nd in self.case["spec"]["nodes"]):
+                self.case["ops"].append(["precision", seed, T, k])
+
         @rule(seed=st.integers(0, 50))
         def run_noise(self, seed):
             self.case["ops"].append(["noise", seed])
@@ -194,9 +210,51 @@ def make_machine(body):
 def profile():
     w = {"schedule": 0.35, "sched_preempt": 0.3, "slotted": 0.2, "capacity": 0.3, "priorities": 0.3, "reneging": 0.5, "batching": 0.4,
          "cc_after": 0.2, "cc_waiting": 0.35, "discipline": 0.3, "routing_objects": 0.6, "process_routing": 0.2, "self_loops": 0.4,
-         "tracker": 0.4, "inf": 0.1, "baulking": 0.15, "system_capacity": 0.1, "prio_preempt": 0.15}
-    return S.Profile(ALLOWED, weights=w, numeric="grid", max_nodes=3, max_classes=2, plans=("max_time",), horizon=(4.0, 8.0), budget=1500,
+         "tracker": 0.4, "inf": 0.1, "baulking": 0.15, "system_capacity": 0.1, "prio_preempt": 0.15, "exact": 0.3}
+    return S.Profile(ALLOWED, weights=w, numeric="grid", max_nodes=3, max_classes=2, plans=("max_time",), horizon=(4.0, 8.0), budget=1500, long_digits=0.15,
                      excluded=common.EXCL["C15"] + ("reuse_stateful",))
+
+
+# ---- process isolation: the same run in a fresh interpreter with and without other simulations before it ---------------------
+@st.composite
+def isolation_case(draw):
+    prof = profile()
+    prof.weights["exact"] = 0.6
+    prof.long_digits = 0.3
+    spec = draw(S.netspec(prof))
+    prelude = draw(st.lists(st.one_of(
+        st.tuples(st.just("precision"), st.sampled_from(SEEDS), st.sampled_from(HORIZONS), st.sampled_from([10, 11, 12, 30])),
+        st.tuples(st.just("noise"), st.integers(0, 50)),
+        st.tuples(st.just("fresh"), st.sampled_from(SEEDS), st.sampled_from(HORIZONS))), min_size=1, max_size=3))
+    return {"spec": spec, "prelude": [list(x) for x in prelude], "target": [draw(st.sampled_from(SEEDS)), draw(st.sampled_from(HORIZONS))]}
+
+
+def _child(job):
+    import json
+    import os
+    import subprocess
+    import sys
+    import vf
+    env = dict(os.environ, PYTHONHASHSEED="0")
+    r = subprocess.run([sys.executable, "-m", "vf.c15child"], input=json.dumps(job), capture_output=True, text=True, cwd=vf.VERIF_DIR, env=env, timeout=300)
+    if r.returncode != 0:
+        raise O.HarnessError("c15child failed: " + r.stderr[-400:])
+    return json.loads(r.stdout.strip().splitlines()[-1])
+
+
+def isolation_execute(case):
+    spec = case["spec"]
+    if any(nd.get("ps") for nd in spec["nodes"]):
+        case = dict(case, prelude=[op for op in case["prelude"] if op[0] != "precision"])
+    alone = _child(dict(case, prelude=[]))
+    after = _child(case)
+    viol = []
+    if alone != after:
+        viol.append({"property": ID, "clause": "C15.same-results-whatever-ran-before-in-the-process", "site": "+".join(sorted(set(op[0] for op in case["prelude"]))),
+                     "details": {"alone": alone, "after_prelude": after, "prelude": case["prelude"], "target": case["target"]}})
+    n = (alone.get("digest") or [None, 0])[1] if alone.get("digest") else 0
+    return {"violations": viol, "nontrivial": n >= 10 and bool(case["prelude"]), "classes": sorted(set("prelude_" + op[0] for op in case["prelude"]))
+            + (["exact_target"] if spec.get("exact") else []), "score": n, "events": 0}
 
 
 def subchecks(tier):
@@ -204,4 +262,8 @@ def subchecks(tier):
                   rule="generated histories of fresh / reused / noise / interleaved runs over one spec")
     sc.machine = make_machine
     sc.steps = 10
-    return [sc]
+    iso = SubCheck("process_isolation", isolation_execute, strategy=isolation_case(), n={"quick": 96, "thorough": 1600}, kind="differential", is_spec=False,
+                   rule="the target run (seed, T) in a fresh interpreter vs the same run in a fresh interpreter after a prelude of other simulations "
+                        "(the same model at another exact precision, an unrelated model, the same model at another seed): digests must be equal; "
+                        "non-trivial = target wrote >= 10 records")
+    return [sc, iso]
